@@ -399,6 +399,7 @@ def judge_state(om, hist, built=None, rules=None, hooks=None):
             exp = model.resolve(path, method)
             got = observe(app, path, method, unspec_ids)
             stats['resolve_probes'] += 1
+            stats.setdefault('outcomes', set()).add(f'{exp[0]}' + (f' with {len(exp[3])} hook(s)' if exp[0] == 'ok' else ''))
             if exp[0] == 'ok':
                 stats['hook_firings'] += len(exp[3])
             if got != exp:
@@ -454,7 +455,10 @@ def work(spec):
     def on_state(hist, obj):
         probs, internal, stats, (model, exps, outcomes) = judge_state(om, hist, obj, rules, hooks)
         for k, v in stats.items():
-            c[k] += v
+            if k == 'outcomes':
+                res['outcomes'] |= {'probe -> ' + x for x in v}
+            else:
+                c[k] += v
         if any(o[0] in ('rm', 'rmn', 'rmp') for o in hist):
             c['states_with_removal'] += 1
             res['nontrivial'] += 1
